@@ -281,6 +281,19 @@ def filter_reaches_pipeline(ctx, P, crate, fam, rule):
     ctx.floor(rule, "%s: process_packet call sites in worker_loop" % fam, n, 1)
 
 
+def _closure_calls(P, term, frag):
+    """does a predicate closure handed to an Option/Iterator combinator inside `term` call `frag`
+    (`signal.as_ref().is_some_and(|c| c.load(Relaxed))` reads the flag just as `if let Some(c) = &signal { if c.load(..)` does)"""
+    for x in T.walk(term):
+        if x[0] == "call" and x[1].endswith(("::is_some_and", "::map_or", "::is_none_or", "::any", "::all")):
+            for a in x[2]:
+                a = T.strip(a)
+                if a[0] == "agg" and a[1] == "closure" and a[2] in P.bodies:
+                    if any(callee_of(t).endswith(frag) for _, t in P.bodies[a[2]].calls()):
+                        return True
+    return False
+
+
 def capture_loop_exits(ctx, P, rule):
     """The capture loops of the analyzers (process_sequential / process_parallel / process_with) end only when the packet source is
     exhausted, on the cancel signal, or when nobody receives results: a packet that the analyzer rejects with an error is logged
@@ -313,7 +326,7 @@ def capture_loop_exits(ctx, P, rule):
                 for c in conds:
                     if c[0] in ("variant", "variant_in") and c[3] is True and T.has_call(c[1], "call_mut") and (c[2] == "None" or (isinstance(c[2], tuple) and "None" in c[2])):
                         why = "source exhausted"
-                    if c[0] == "bool" and T.has_call(c[1], "::load") and c[2] is True:
+                    if c[0] == "bool" and c[2] is True and (T.has_call(c[1], "::load") or _closure_calls(P, c[1], "::load")):
                         why = "cancel / shutdown signal"
                     if c[0] == "bool" and T.has_call(c[1], "Sender::<T>::send") and ((T.has_call(c[1], "::is_err") and c[2] is True) or (T.has_call(c[1], "::is_ok") and c[2] is False)):
                         why = "result receiver gone"
